@@ -161,7 +161,7 @@ def build(tier, seed):
         return (nval(ev.evaluate('Sheet1!Z1')) == sum(1 for a, b in rows if a > k1 and b <= k2) and nval(ev.evaluate('Sheet1!Z2')) == sum(1 for a, b in rows if a == k1 and b != k2)
                 and nval(ev.evaluate('Sheet1!Z3')) == sum(1 for a, b in rows if a >= k1))
     add('COUNTIFS', h_ifs, lambda a1, a2, a3, b1, b2, b3, k1, k2: -1 <= k1 <= 1 and -1 <= k2 <= 1, [(1, 2, 3, 3, 2, 1, 1, 2), (0, 0, 0, 0, 0, 0, -1, 0)],
-        'two ranges of 3 int cells (unbounded), two criteria (">"&k1, "<="&k2), (k1, "<>"&k2), one criterion; k1, k2 in -1..1 (forked)', 150, None, None, 900,
+        'two ranges of 3 int cells (unbounded), two criteria (">"&k1, "<="&k2), (k1, "<>"&k2), one criterion; k1, k2 in -1..1 (forked)', 150,
         lambda *a: f'A={a[:3]!r} B={a[3:6]!r} k1={a[6]} k2={a[7]}')
 
     # ---------------- MATCH exact / approximate
